@@ -61,6 +61,29 @@ pub trait Datamodel {
             frame_core(old(self).gview(), final(self).gview()),
             final(self).gview().child_sessions == old(self).gview().child_sessions;
 
+    /// start-up calls of interpret() (oracle): they touch the data store only
+    fn clear(&mut self)
+        ensures
+            final(self).log() == old(self).log(),
+            final(self).gview() == old(self).gview();
+
+    fn initialize_read_only(&mut self, name: &str, value: Data)
+        ensures
+            final(self).log() == old(self).log(),
+            final(self).gview() == old(self).gview();
+
+    /// registers In() etc.; takes `&mut Fsm` but only reads the states (InAction::new, verified in unit dm)
+    fn add_functions(&mut self, fsm: &mut Fsm)
+        ensures
+            *final(fsm) == *old(fsm),
+            final(self).log() == old(self).log(),
+            final(self).gview() == old(self).gview();
+
+    fn set_ioprocessors(&mut self)
+        ensures
+            final(self).log() == old(self).log(),
+            final(self).gview() == old(self).gview();
+
     /// evaluates <param> elements into name/value pairs (oracle); errors are raised as events
     fn evaluate_params(&mut self, params: &Option<Vec<Parameter>>, values: &mut Vec<ParamPair>)
         ensures
@@ -168,6 +191,15 @@ pub fn verif_str_starts_with(s: &str, p: &String) -> (r: bool)
 pub assume_specification [std::string::String::len] (s: &std::string::String) -> (r: usize)
     ensures
         r == vstd::utf8::encode_utf8(s@).len();
+
+impl Data {
+    /// stand-in for the enum constructor `Data::Integer(..)` (Data is opaque here)
+    #[allow(non_snake_case)]
+    #[verifier::external_body]
+    pub fn Integer(v: i64) -> (r: Data) {
+        unimplemented!()
+    }
+}
 
 impl Data {
     /// stand-in for the enum constructor `Data::String(..)` (Data is opaque here)
